@@ -49,6 +49,11 @@ class C09(core.Check):
             ("remotertls", True, [("tx", b"hello"), ("svc",), ("svc",)], [("acc", 2), ("f", T.SSLEOF)], [("d", b"abc"), ("f", T.SSLEOF)]),
             ("remotertls", False, [("tx", b"hello world"), ("ss",)] + [("ss",)] * 12, [("acc", 1)] * 14, []),
             ("client", True, [("tx", b"a" * 100), ("ss",), ("tx", b"b" * 100), ("ss",), ("ss",)], [("acc", 150), ("acc", 10), ("acc", 1000)], []),
+            # data, then the peer resets between passes: the bytes must still arrive and be logged
+            ("client", True, [("sr",), ("rst",), ("svc",), ("svc",)], [], [("d", b"ab"), ("f", e), ("d", b"cd"), ("f", 104)]),
+            ("remoter", True, [("tx", b"xyz"), ("rst",), ("svc",), ("svc",)], [("acc", 1), ("acc", 5)], [("d", b"q")]),
+            ("clienttls", True, [("tx", b"xyz"), ("rst",), ("svc",), ("svc",)], [("acc", 1), ("acc", 5)], [("d", b"q")]),
+            ("remotertls", True, [("tx", b"xyz"), ("rst",), ("svc",), ("svc",)], [("acc", 1), ("acc", 5)], [("d", b"q")]),
         ]
 
     def generate(self, rng, n, tier):
@@ -100,6 +105,8 @@ class C09(core.Check):
                 flav = rng.choice([None, None, "wb", "conn"])
                 sends = T.gen_sends(rng, kind, rng.randrange(0, 10), total, fault_p=fp, flavour=flav)
                 recvs = T.gen_recvs(rng, kind, rng.randrange(0, 8), fault_p=fp, flavour=flav, big=(tier == "thorough"))
+            if rng.random() < 0.2 and ops:   # the peer resets somewhere in the history (queued bytes are still delivered)
+                ops.insert(rng.randrange(0, len(ops) + 1), ("rst",))
             yield (kind, rng.random() < 0.8, ops, sends, recvs)
 
     def request(self, case):
@@ -183,6 +190,12 @@ class C09(core.Check):
                 bad.append("healthy-not-all-received")
         return sorted(set(bad))
 
+    def known(self, case, obs, clauses):
+        # C09-K2: RemoterTls with a wire log on a connection the peer has reset (who=self.cs.getpeername() raises)
+        if case[0] == "remotertls" and case[1] and any(o[0] == "rst" for o in case[2]):
+            return "C09-K2"
+        return None
+
     def nontrivial(self, case, obs):
         if case[0] == "real":
             return obs[5] > 20000
@@ -211,6 +224,8 @@ class C09(core.Check):
                 f.append("recvfault:" + ("wb" if r[1] in T.wouldblock_codes(kind) else "conn" if r[1] in T.conn_fault_codes(kind) else "other"))
             elif not r[1]:
                 f.append("recv:eof")
+        if any(o[0] == "rst" for o in ops):
+            f.append("peer-reset")
         if any(s[0] != "ok" for s in obs[0]):
             f.append("raised")
         if obs[1][6]:
